@@ -6,6 +6,7 @@ CONSTANTS
   SmallShrCount = 12
   Range <- RangeTiny
   ClassSet <- ClassesQuick
+  AliasSet <- ClassesAlias
   CoreSet <- ClassesCore
 CONSTRAINT RowOut
 CHECK_DEADLOCK FALSE
